@@ -350,21 +350,40 @@ def need(R, oid, rule, site, stmt, f, patterns, binding=None, loc=None, under=No
             if isinstance(st, ast.Assign) and len(st.targets) == 1 and isinstance(st.targets[0], ast.Name) and \
                     '%s::=%s' % (f.module.relpath, st.targets[0].id) not in kn:
                 EXTRA_DEFS[st.targets[0].id] = st.value
+    from .pattern import EXPR_HELPERS
+    EXPR_HELPERS.clear()
+    for g in new_helpers_of(f):
+        body = g.body()
+        ok_ = bool(body) and isinstance(body[-1], ast.Return) and body[-1].value is not None
+        for st in body[:-1]:
+            # only `if bad: ...; raise` checks and logging before the return
+            if isinstance(st, ast.If) and not st.orelse and st.body and isinstance(st.body[-1], ast.Raise):
+                continue
+            if isinstance(st, ast.Expr) and isinstance(st.value, ast.Call):
+                continue
+            ok_ = False
+        if ok_ and not g.node.args.vararg and not g.node.args.kwarg:
+            ps_ = g.params()
+            if ps_ and ps_[0] in ('self', 'cls') and g.cls is not None and 'staticmethod' not in g.decorators():
+                ps_ = ps_[1:]
+            EXPR_HELPERS[g.name] = (ps_, body[-1].value)
     b, missing = find(f.node, patterns, binding, nodes_out=nodes)
-    if b is None and binding is None:
+    if b is None:
         # the statements may have been moved into a helper that is new to the reviewed tree: look there
         for g in new_helpers_of(f):
             nodes = []
-            b, missing2 = find(g.node, patterns, None, nodes_out=nodes)
+            b, missing2 = find(g.node, patterns, binding, nodes_out=nodes)
             if b is not None:
                 f = g
                 break
         if b is None and new_helpers_of(f):
             # part of the construct may sit in the helper and part in the caller: not something the pattern
             # matcher can follow, and not evidence that the construct is gone
-            raise AnalysisError('%s now calls %s (new to the reviewed tree); the expected statements are not found '
-                                'in one function: %s' % (f.qualname, [g.qualname for g in new_helpers_of(f)],
-                                                         [m[:60] for m in missing]))
+            R.error(oid, rule, site, stmt,
+                    '%s now calls %s (new to the reviewed tree); the expected statements are not found in one '
+                    'function: %s' % (f.qualname, [g.qualname for g in new_helpers_of(f)], [m[:60] for m in missing]),
+                    loc or f.loc())
+            return None
     cond = []
     if b is not None and under != '*':
         parent = {}
@@ -390,6 +409,12 @@ def need(R, oid, rule, site, stmt, f, patterns, binding=None, loc=None, under=No
                                                          'not ' if neg else '', ast.unparse(p.test)[:60]))
                 c = p
     ok = b is not None and not cond
+    if b is None:
+        # the statements were not found in the shape the pattern describes: a rewrite the matcher cannot follow and a
+        # deleted step look the same from here, so this is "cannot decide" (exit 2), not a violation.  (On the 80
+        # seeded regressions no report depended on this being a violation; on the benign corpus it was a false alarm.)
+        R.error(oid, rule, site, stmt, 'no statement of the expected shape: %s' % missing, loc or f.loc())
+        return None
     R.check(oid, rule, site, stmt, ok, key='; '.join(m[:80] for m in (missing or cond)),
             detail=('no statement of the expected shape: %s' % missing) if b is None else
             ('matched, but conditional: %s' % cond), loc=loc or f.loc())
@@ -586,3 +611,12 @@ def dict_facts(fl):
                 if isinstance(v, RF):
                     from_dict_atom(v, e)
     return out
+
+
+def unmut(fl, rf):
+    """the container behind a `mutated(...)` marker (a list that was appended to in a helper and handed back)"""
+    a = atom_of(fl, rf)
+    while a is not None and a.head == 'mutated' and isinstance(a.args[0], RF):
+        rf = a.args[0]
+        a = atom_of(fl, rf)
+    return rf
